@@ -179,6 +179,13 @@ func newVec(typ, hmode int, names []string, codes []int, plain bool) *adapter {
 		}
 		a, mv = mk[prometheus.Observer, prometheus.ObserverVec](v), v.MetricVec
 	}
+	plantHash(mv, hmode)
+	return a
+}
+
+// drain runs collect into a channel and returns everything it sent.
+// plantHash installs the hash hooks of mode hmode (see Model/Vec.v hmode_add / hmode_addb).
+func plantHash(mv *prometheus.MetricVec, hmode int) {
 	keepB := func(h uint64, b byte) uint64 { return h }
 	switch hmode {
 	case 1:
@@ -194,10 +201,8 @@ func newVec(typ, hmode int, names []string, codes []int, plain bool) *adapter {
 			return h
 		}, keepB)
 	}
-	return a
 }
 
-// drain runs collect into a channel and returns everything it sent.
 func drain(collect func(ch chan<- prometheus.Metric)) []prometheus.Metric {
 	ch := make(chan prometheus.Metric, 64)
 	perr := make(chan interface{}, 1)
@@ -1121,6 +1126,7 @@ func genUTF8(r *emit.Rng) []byte {
 func runC07(c *cli.Ctx) error {
 	root := emit.NewRng(c.Seed)
 	rSeq, rMal, rStress, rUTF := root.Fork(), root.Fork(), root.Fork(), root.Fork()
+	rSched := root.Fork()
 
 	w := emit.NewWriter(c.Out, "C07", "seq")
 	for i := 0; i < 600*c.Scale; i++ {
@@ -1171,5 +1177,8 @@ func runC07(c *cli.Ctx) error {
 		}
 		w.Add(emit.C(2, emit.S(s), emit.B(v)), hi, vt, fmt.Sprintf("len:%d", len(b)))
 	}
-	return w.Flush()
+	if err := w.Flush(); err != nil {
+		return err
+	}
+	return runSched(c, rSched)
 }
